@@ -44,6 +44,9 @@ func languageSweep(r *ev.Run, G *gprops, gs *gstats, vers []int, thorough bool) 
 	}
 	r.Phase("value lattices", func() { valueLattices(r, G, gs, vers, thorough) })
 	r.Phase("foreign names", func() { nameSweep(r, G, gs, vers, thorough) })
+	if G.accept || G.classify {
+		r.Phase("verdicts after other process histories", func() { verdictHistories(r, vers) })
+	}
 	r.Phase("vectors of the other version", func() { crossVersion(r, G, gs, vers) })
 	r.Phase("edit ball", func() { editBall(r, G, gs, vers, thorough) })
 	r.Phase("short byte strings", func() {
@@ -179,7 +182,47 @@ func nameSweep(r *ev.Run, G *gprops, gs *gstats, vers []int, thorough bool) {
 			})
 		}
 	}
+	// 70,000 distinct names never seen before, one after the other in one goroutine, each standing
+	// in for the first base metric and (every seventh) also appended to a complete vector: whatever
+	// the library remembers about names must not wrap at 2^16 (round 7, C07-B-r7: names interned
+	// into 16-bit symbols, the 65,536th distinct name aliases AV)
+	for _, ver := range vers {
+		base := canonicalWritten(ver, 0, lang.Classify(ver, 2, seeds(ver)[2]).Ver, lang.Project(ver, 0, lang.Classify(ver, 2, seeds(ver)[2]).Tokens))
+		toks := strings.Split(base, "/")
+		first := 0
+		if ver == 3 {
+			first = 1
+		}
+		val := toks[first][strings.IndexByte(toks[first], ':'):]
+		bad := r.Violations()
+		for i := 0; i < 70000 && r.Violations() < bad+3; i++ {
+			name := fmt.Sprintf("Q%d", i)
+			x := append(append(append([]string{}, toks[:first]...), name+val), toks[first+1:]...)
+			judge(r, G, gs, ver, i%3, strings.Join(x, "/"))
+			n++
+			if i%7 == 0 {
+				judge(r, G, gs, ver, i%3, base+"/"+name+val)
+				n++
+			}
+		}
+	}
 	r.Add("foreign_name_inputs", n)
+}
+
+// verdictHistories: the verdicts of every decoder on a catalogue of valid and single-defect
+// inputs, computed in fresh child processes after other histories (the other version's use, both,
+// reports in 100 languages before the first temporal / environmental decode) and under the
+// variant environments, must be what this process computes (round 7, C07-A-r7: an interner shared
+// by the report names and the decoders' duplicate check, which stops seeing duplicates of metric
+// names first met after 64 other strings).
+func verdictHistories(r *ev.Run, vers []int) {
+	var es [][]string
+	for _, ver := range vers {
+		for lv := 0; lv < 3; lv++ {
+			es = append(es, []string{"verdicts", fmt.Sprint(ver), fmt.Sprint(lv)})
+		}
+	}
+	historyAndEnvironment(r, es, []string{"languages-first", "both"})
 }
 
 // crossVersion: well-formed vectors of the other CVSS version (and v3 vectors without their
